@@ -17,7 +17,7 @@ class C03(Check):
             "pack octets = denoted labels, unpack(pack) accepted and re-packs identically, non-FQDN refused. Model "
             "cases: a sample of all of these plus wire inputs with pointer chains (125..128 hops), self pointers, "
             "truncations and bit flips, and exact/one-short buffer capacities. Non-trivial: input longer than 2 octets.")
-    trusted = ["octet-level model of IsFqdn (strings.LastIndexFunc is rune based) is exact when the last non-backslash rune is one octet"]
+    trusted = ["IsFqdn is modelled octet by octet (since fix a528a12 the implementation counts the backslashes octet by octet too)"]
 
     def nontrivial(self, c):
         return len(c["args"][0]) > 4
